@@ -110,18 +110,20 @@ def logical_lines(text):
     return groups
 
 
-def ref_macro_text(text, is_vec, defined=None):
+def ref_macro_text(text, is_vec, defined=None, physical=False):
     """Active part of one macro header under the documented configuration: QEMU_GENERATE and
     CONFIG_USER_ONLY undefined; in the vector header blocks guarded by QEMU_GENERATE (either
     polarity) are transparent; any other guard symbol is defined iff an active #define defined it.
     #include lines are dropped.  Comments are blanked here only to find directives; the returned
-    text keeps them (the C preprocessor removes them)."""
+    text keeps them (the C preprocessor removes them).
+    physical=True evaluates directives one physical line at a time (before splicing); it is only used
+    to model a known finding."""
     defined = set() if defined is None else defined
     stack = []  # (parent_active, this_branch_active, any_branch_taken, transparent)
     out = []
     active = True
     in_comment = False
-    for grp in logical_lines(text):
+    for grp in ([[x] for x in text.split("\n")[: -1 if text.endswith("\n") else None]] if physical else logical_lines(text)):
         joined = "".join(x[:-1] if x.endswith("\\") else x for x in grp)
         # strip comments for directive recognition
         probe, in_comment = _strip_comments(joined, in_comment)
